@@ -199,6 +199,7 @@ static PSymbolStack FirstStack;
 static PCToken      MomSection;
 static char*        LastGlobSymbol;
 static PFunction    FirstFunction; /* Liste definierter Funktionen */
+static LongInt      UserFuncDepth; /* nesting depth of user-defined function bodies being evaluated */
 
 void AsmParsInit(void) {
     FirstSymbol = NULL;
@@ -1564,7 +1565,13 @@ void EvalStrExpression(tStrComp const* pExpr, TempResult* pErg) {
                 LEAVE2;
             }
             StrCompMkTemp(&CompArg, CompArgStr.p_str, CompArgStr.capacity);
+            if (UserFuncDepth >= ((NestMax > 0) ? NestMax : DEF_NESTMAX)) {
+                WrError(ErrNum_RekMacro);
+                LEAVE2;
+            }
+            UserFuncDepth++;
             EvalStrExpression(&CompArg, pErg);
+            UserFuncDepth--;
             pErg->Flags |= PromotedFlags;
             pErg->AddrSpaceMask |= PromotedAddrSpaceMask;
             if (pErg->DataSize == eSymbolSizeUnknown) {
